@@ -1,10 +1,13 @@
 """Property id -> (check function, replay function)."""
 import conn_checks
 import write_checks
+import chain_checks
 
 CHECKS = {
     "C01": (conn_checks.c01, conn_checks.replay_framing),
     "C02": (write_checks.c02, write_checks.replay_writing),
+    "C06": (chain_checks.c06, chain_checks.replay_chain),
     "C07": (conn_checks.c07, conn_checks.replay_framing),
+    "C11": (chain_checks.c11, chain_checks.replay_chain),
     "C17": (write_checks.c17, write_checks.replay_writing),
 }
